@@ -27,6 +27,7 @@ import (
 var pinnedSymbols string
 
 type pinnedTable struct {
+	inl   map[string]bool     // function key → was expanded as an expression at pin time
 	funcs map[string]string   // function key → signature
 	types map[string][]string // type key → "name:type" per field, in order
 }
@@ -37,19 +38,20 @@ func loadPinned() *pinnedTable {
 	if pinned != nil {
 		return pinned
 	}
-	t := &pinnedTable{funcs: map[string]string{}, types: map[string][]string{}}
+	t := &pinnedTable{funcs: map[string]string{}, types: map[string][]string{}, inl: map[string]bool{}}
 	for _, l := range strings.Split(pinnedSymbols, "\n") {
-		parts := strings.SplitN(strings.TrimSpace(l), "\t", 3)
+		parts := strings.SplitN(strings.TrimSpace(l), "\t", 4)
 		if len(parts) < 2 {
 			continue
 		}
 		switch parts[0] {
 		case "func":
 			sig := ""
-			if len(parts) == 3 {
+			if len(parts) >= 3 {
 				sig = parts[2]
 			}
 			t.funcs[parts[1]] = sig
+			t.inl[parts[1]] = len(parts) == 4 && parts[3] == "inl"
 		case "type":
 			var fs []string
 			if len(parts) == 3 && parts[2] != "" {
@@ -76,8 +78,21 @@ func (p *Prog) qualifier(pkg *types.Package) string {
 	return p.RelPkg(pkg.Path())
 }
 
+// sigString: the signature by types only (parameter and result names are free to change).
 func (p *Prog) sigString(fn *ssa.Function) string {
-	return types.TypeString(fn.Signature, p.qualifier)
+	sig := fn.Signature
+	var ps, rs []string
+	for i := 0; i < sig.Params().Len(); i++ {
+		t := types.TypeString(sig.Params().At(i).Type(), p.qualifier)
+		if sig.Variadic() && i == sig.Params().Len()-1 {
+			t = "..." + strings.TrimPrefix(t, "[]")
+		}
+		ps = append(ps, t)
+	}
+	for i := 0; i < sig.Results().Len(); i++ {
+		rs = append(rs, types.TypeString(sig.Results().At(i).Type(), p.qualifier))
+	}
+	return "func(" + strings.Join(ps, ", ") + ") (" + strings.Join(rs, ", ") + ")"
 }
 
 func rawFuncKey(p *Prog, fn *ssa.Function) string { return p.funcKey(fn, false) }
@@ -87,9 +102,23 @@ func isExportedName(n string) bool { return n != "" && n[0] >= 'A' && n[0] <= 'Z
 // symbolLines renders the current tree in the format of symbols_pinned.txt.
 func (p *Prog) symbolLines() []string {
 	var out []string
+	e := ComputeEffects(p)
 	for _, fn := range p.Funcs {
 		if fn.Parent() == nil && fn.Synthetic == "" {
-			out = append(out, "func\t"+rawFuncKey(p, fn)+"\t"+p.sigString(fn))
+			// was the function expanded as an expression at pin time? (a pinned function that was an opaque call then stays
+			// one, even if a later edit turns its body into a single expression that forwards to something else)
+			st := &pstate{b: &gcBuilder{p: p, e: e, fn: fn, cutIdx: map[string]int{}, out: &GCNF{Fn: fn}, pinning: true}, env: map[ssa.Value]*Term{}, onPath: map[string]bool{}, inl: true}
+			var args []*Term
+			for i := range fn.Params {
+				args = append(args, leaf("p", itoa(i)))
+			}
+			flag := "-"
+			if sum := e.Sum[fn]; sum != nil && len(sum.W) == 0 && sum.Out == nil && len(sum.Undecided) == 0 && len(sum.FreshInto) == 0 && len(sum.Keep) == 0 {
+				if _, ok := st.inline(fn, args); ok {
+					flag = "inl"
+				}
+			}
+			out = append(out, "func\t"+rawFuncKey(p, fn)+"\t"+p.sigString(fn)+"\t"+flag)
 		}
 	}
 	for _, pk := range p.Lib {
